@@ -84,7 +84,9 @@ func c15LoadEntries(lss int, devsize int64) {
 	vp.AllocLimit(uint64(2*devsize + c15Slack))
 	vp.MaxLoop(40)
 	vp.NoPanic()
-	t2, err := loadEntries(dev, t, lss, lss)
+	// the array is read in rounds of at most 1 MiB and a round that delivers less than asked ends the
+	// read: on a device of at most 1 MiB no more than devsize/1MiB + 2 rounds can happen (c15CountDev)
+	t2, err := loadEntries(&c15CountDev{MemDev: dev, max: 4}, t, lss, lss)
 	vp.AllowPanic()
 	if err == nil {
 		vp.Assert(t2 != nil, "table returned")
@@ -209,4 +211,17 @@ func VP_C15_gpt_valid_header_read() {
 	} else {
 		vp.Cover("forged header rejected")
 	}
+}
+
+
+// c15CountDev fails an assertion when the code under test issues more than max reads.
+type c15CountDev struct {
+	*vpdev.MemDev
+	n, max int
+}
+
+func (d *c15CountDev) ReadAt(p []byte, off int64) (int, error) {
+	d.n++
+	vp.Assert(d.n <= d.max, "the entries array is read in a bounded number of rounds")
+	return d.MemDev.ReadAt(p, off)
 }
